@@ -15,6 +15,7 @@ CONSTANTS
   Days = {0, 1, 2}
   Shifts <- StdShifts
   WithNoSent = TRUE
+  WithRecent = TRUE
   Fields = {"From", "To", "Cc", "Bcc", "Subject", "XV"}
   Tokens = {"t1", "t2"}
   LeafOps = {"ALL", "NEW", "ANSWERED", "DELETED", "DRAFT", "FLAGGED", "RECENT", "SEEN",
@@ -28,7 +29,7 @@ CONSTANTS
   HdrKeys = {"From", "To", "Cc", "Bcc", "Subject", "XV", "XN"}
   SeqSets <- StdSeqSets
   UidSets <- StdUidSets
-  DateModes = {"written", "utc"}
+  DateModes = {"ww", "wu", "uw", "uu"}
   Devs = {"BodyKeyMatchesHeaders", "UidSearchSeqSetAsUid", "DoubleNotRejected"}
   NumMb = 200
   NumLeaf = 40
